@@ -77,6 +77,10 @@ func (s *DiskKeyIndex) IteratorBetween(keyLower []byte, keyHigher []byte) (skipl
 
 	// due to the inclusivity of keyHigher, we want to exclude the next item if it's not an exact match
 	if !found {
+		// keyHigher sorts before the very first key, so the range is empty (and the decrement would underflow)
+		if endOffset == 0 {
+			return s.newIterator(1, 0), nil
+		}
 		endOffset = endOffset - 1
 	}
 
